@@ -1,0 +1,105 @@
+//go:build verif
+
+package gcsemu
+
+// Contracts for property C11 (bucket listing) and C20 (no crash) of the list path:
+// greaterThanPrefix, lessThanPrefix, handleGcsListBucket, makeBucketListResults (+ walk closure).
+// Checked by /verif/govc. Comments only. Owner: gcslist.
+//
+// The byte-string lemmas the functional clauses of greaterThanPrefix / lessThanPrefix depend on are
+// listed (as `axiom` blocks, each marked ASSUMED) in /verif/contracts/trusted/area_gcslist.spec.
+
+// ---------------------------------------------------------------------------------------------
+// greaterThanPrefix / lessThanPrefix (gcsemu.go)
+// ---------------------------------------------------------------------------------------------
+
+// Property C11: greaterThanPrefix(item, prefix) <==> forall s :: hasPrefix(s, prefix) ==> s < item.
+// The "<==" direction is stated twice: in the quantified form of the property and in the stronger
+// witness form (if the result is false then either item itself carries the prefix, or prefix -- which
+// carries itself as a prefix -- is not below item).
+//@ func greaterThanPrefix
+//@   property C11 C20
+//@   pure
+//@   ensures result == (len(item) < len(prefix) ? prefix < item : prefix < item[:len(prefix)])
+//@   ensures result ==> forall s string :: hasPrefix(s, prefix) ==> s < item
+//@   ensures !result ==> hasPrefix(item, prefix) || !(prefix < item)
+//@   ensures (forall s string :: hasPrefix(s, prefix) ==> s < item) ==> result
+
+// Property C11 needs the soundness of lessThanPrefix only (it prunes directories in the walk closure):
+// result ==> forall s :: hasPrefix(s, prefix) ==> item < s.
+// The converse is FALSE for this function whenever item is a proper prefix of prefix, e.g.
+// lessThanPrefix("a", "ab") == false although "a" < every string that begins with "ab" (harmless: less
+// pruning; for a directory "a" and prefix "a/b" not pruning is even required). By decision of the lead
+// (2026-10-01) the `<==` direction is therefore not claimed; the third clause states exactly when the result
+// is false instead (report, D1).
+//@ func lessThanPrefix
+//@   property C11 C20
+//@   pure
+//@   ensures result == (len(item) < len(prefix) ? item < prefix[:len(item)] : item < prefix)
+//@   ensures result ==> forall s string :: hasPrefix(s, prefix) ==> item < s
+//@   ensures !result ==> !(item < prefix) || (len(item) < len(prefix) && hasPrefix(prefix, item))
+
+// ---------------------------------------------------------------------------------------------
+// handleGcsListBucket (gcsemu.go)
+// ---------------------------------------------------------------------------------------------
+
+// Property C11/C20: a malformed pageToken or a maxResults that does not parse or is < 1 is answered with
+// gapiError(400) and the lister is not entered. What is checkable with the contracts available:
+//   - the only path into makeBucketListResults establishes its precondition maxResults >= 1 (pre obligation
+//     at the call), i.e. a maxResults < 1 never reaches the lister;
+//   - on every path exactly one JSON envelope is written (ghost jsonBodies of the handlers area: gapiError
+//     and jsonRespond each write one) and no emulator state is modified (no heap in `modifies`).
+// Not expressible: that the envelope of the two error paths carries status 400 -- the contract of gapiError
+// (area gcshandlers) does not expose the status code (report, section 3).
+//@ func (g *GcsEmu) handleGcsListBucket
+//@   property C11 C20
+//@   requires w != nil
+//@   modifies ghost(jsonBodies)
+//@   ensures jsonBodies == old(jsonBodies) + 1
+
+// ---------------------------------------------------------------------------------------------
+// makeBucketListResults (walk.go)
+// ---------------------------------------------------------------------------------------------
+
+// Walk closure ($2): callback invariant over the captured locals. Names delivered by Store.Walk are arbitrary
+// here (the ascending order of the stores is the business of memstore.Walk / filestore.Walk), so the invariant
+// states what one page may contain:
+//   - count <= maxResults and len(found) + len(prefixes) <= count  (no page holds more than maxResults entries)
+//   - every recorded item carries the prefix and is above the cursor; with a delimiter it has no delimiter
+//     after the prefix (strIdx(..) < 0)
+//   - every collapsed prefix carries the prefix, is marked in seenPrefixes, and is recorded once
+//   - moreResults is only set when the page is full
+// Safety inside the closure: filename[:len(prefix)+delimiterPos+len(delimiter)] is in bounds (strings.Index
+// and strings.TrimPrefix facts), seenPrefixes is a non-nil map.
+// Page assembly (loop 1): the k-th iteration appends the metadata of found[k], skips it when ReadMeta yields
+// (nil, nil) (object deleted after the walk saw it; fix 944213a of defect D2) or stops on an error: so
+// len(items) <= idx1+1 <= len(found), items are in the order of found, and no item is nil (needed by
+// items[len(items)-1].Name).
+// nextPageToken != "" only if moreResults: follows from the code shape (no place to assert it: the function
+// has no results and the response is handed to jsonRespond).
+//@ func (g *GcsEmu) makeBucketListResults
+//@   property C11 C20
+//@   requires w != nil
+//@   requires maxResults >= 1
+//@   modifies ghost(jsonBodies)
+//@   ensures jsonBodies == old(jsonBodies) + 1
+//@   callback $2 invariant 0 <= count && count <= maxResults
+//@   callback $2 invariant len(found) + len(prefixes) <= count
+//@   callback $2 invariant moreResults ==> count == maxResults
+//@   callback $2 invariant seenPrefixes != nil
+//@   callback $2 invariant cap(found) == 0 || fresh(found)
+//@   callback $2 invariant cap(prefixes) == 0 || fresh(prefixes)
+// the backing array of prefixes ([]string) is none of the captured string cells (same heap class T:string)
+//@   callback $2 invariant cap(prefixes) == 0 || (obj(prefixes) != obj(addr(prefix)) && obj(prefixes) != obj(addr(cursor)) && obj(prefixes) != obj(addr(delimiter)))
+//@   callback $2 invariant forall k :: 0 <= k < len(found) ==> hasPrefix(found[k].filename, prefix)
+//@   callback $2 invariant forall k :: 0 <= k < len(found) ==> cursor < found[k].filename
+//@   callback $2 invariant forall k :: 0 <= k < len(found) ==> delimiter == "" || uf_strIdx(found[k].filename[len(prefix):], delimiter) < 0
+//@   callback $2 invariant forall k :: 0 <= k < len(prefixes) ==> seenPrefixes[prefixes[k]]
+//@   callback $2 invariant forall a, b :: 0 <= a < b < len(prefixes) ==> prefixes[a] != prefixes[b]
+//@   callback $2 invariant forall k :: 0 <= k < len(prefixes) ==> hasPrefix(prefixes[k], prefix)
+//@   loop 1 invariant len(items) <= idx1 + 1
+// property C11 "no page holds more than maxResults entries": items + prefixes of the response
+//@   loop 1 invariant len(found) + len(prefixes) <= maxResults
+//@   loop 1 invariant len(items) + len(prefixes) <= maxResults
+//@   loop 1 invariant forall k :: 0 <= k < len(items) ==> items[k] != nil
+//@   loop 1 invariant cap(items) == 0 || fresh(items)
